@@ -182,8 +182,10 @@ pub fn run_cases_lane(run: &Run, prop: &str, lo: u64, n: u64, chunk: u64, descri
                             let (kind, entry, extra) = classify(&xline, &tail, status);
                             let (labels, wit) = describe(idx);
                             // crashes are identified by kind + the read entry point that was executing (the case labels go into the witness)
-                            let _ = &labels;
-                            let sig = if lane.is_empty() { format!("{}|crash|{}|entry={}", prop, kind, entry) } else { format!("{}|{}|crash|{}|entry={}", prop, lane, kind, entry) };
+                            // ... except for the enumerated hand-written cases, whose label names the construct: its template is part of the
+                            // signature, so that a recorded finding about one construct cannot hide a crash caused by another
+                            let fam = if labels.starts_with("special:") { format!("|{}", crate::panicmon::template(&labels)) } else { String::new() };
+                            let sig = if lane.is_empty() { format!("{}|crash|{}|entry={}{}", prop, kind, entry, fam) } else { format!("{}|{}|crash|{}|entry={}{}", prop, lane, kind, entry, fam) };
                             run.violation(&sig, &format!("worker died on case {}: {} {} ; stderr: {}", idx, kind, extra, tail.chars().take(300).collect::<String>()), json!({"idx": idx, "labels": labels, "case": wit}));
                         }
                         cur = idx + 1;
